@@ -384,10 +384,14 @@ func (i *insertExecutor) parsePkValuesFromStatement(insertStmt *ast.InsertStmt, 
 				pkValueStr, ok := pkValue.(string)
 				if ok && strings.EqualFold(pkValueStr, sqlPlaceholder) {
 					currentRowNotPlaceholderNumBeforePkIndex := 0
+					// every value in front of the key that is not a placeholder: string literals as well as
+					// numbers, NULL and expressions
 					for i := range row {
-						r := row[i]
-						rStr, ok := r.(string)
-						if i < pkIndex && ok && !strings.EqualFold(rStr, sqlPlaceholder) {
+						if i >= pkIndex {
+							break
+						}
+						rStr, ok := row[i].(string)
+						if !ok || !strings.EqualFold(rStr, sqlPlaceholder) {
 							currentRowNotPlaceholderNumBeforePkIndex++
 						}
 					}
